@@ -37,7 +37,8 @@ def place_demo(demo_dir, wt):
             m = re.search(r"^package (\w+)", txt, re.M)
             pkg = m.group(1) if m else "main"
             rel = os.path.relpath(root, demo_dir)
-            if rel != "." and os.path.isdir(os.path.join(wt, rel)):
+            if rel != "." and (os.path.isdir(os.path.join(wt, rel)) or os.path.isdir(os.path.join(wt, rel.split(os.sep)[0]))):
+                # (a demonstration may bring packages of its own below an existing directory)
                 dst_dir = os.path.join(wt, rel)
             else:
                 dst_dir = {"stack": "stack", "stack_test": "stack", "internal": "internal", "webstack": "stack/webstack", "webstack_test": "stack/webstack"}.get(pkg)
@@ -72,6 +73,8 @@ def run_demo(placed, wt):
                 # only the demo's own failures matter
                 fails = set(re.findall(r"^\s*--- FAIL: (\S+)", out, re.M)) - BASELINE_FAIL
                 rc = 1 if fails or "[build failed]" in out else 0
+        elif not any(re.search(r"^package main\b", open(p, errors="replace").read(), re.M) for p in placed if os.path.dirname(p) == d):
+            continue  # a library package the demonstration's test imports
         else:
             rc, out = sh(["go", "run", rel], wt)
         out_all += out[-1500:]
